@@ -65,6 +65,6 @@ HistoryComplete == Quiescent => /\ DOMAIN hist = 0..Len(wins)
                                 /\ \A i \in 1..Len(wins) : hist[i] = wins[i][2]
 (* behaviour export for replay through the gates of the real code (-simulate): at quiescence print the schedule and
    what the specification says the outcome is *)
-EmitAtQuiescence == Quiescent => Emit([script |-> Script, sched |-> sched, res |-> res, get |-> word[2],
+EmitAtQuiescence == Quiescent => Emit([script |-> Script, first |-> States[1], sched |-> sched, res |-> res, get |-> word[2],
                                       hist |-> [i \in 1..Len(wins) + 1 |-> hist[i - 1]]])
 =============================================================================
